@@ -1052,6 +1052,9 @@ func runSeq[T any, L tlist[T, L]](c *vlib.Ctx, k *kind[T, L], i int, r *vlib.Ran
 	s.t = prim
 	if !s.dead && r.Chance(1, 3) && len(prim.m) <= 400 {
 		s.addAllSelf()
+		if !s.dead {
+			s.verifyAll("AddAll", "")
+		}
 	}
 	if !s.dead && s.verifyAll("end", "") {
 		// every element through the native accessor, and the first index past the end
